@@ -2,7 +2,7 @@
 # Builds the framework from files on disk only (offline).
 set -e
 export GOFLAGS=-mod=mod GOPROXY=off GOSUMDB=off GOTOOLCHAIN=local CGO_ENABLED=0
-cd /verif
+cd "$(dirname "$0")"
 mkdir -p .build evidence
 (cd harness && go build -tags verif -o ../.build/vharness.setup . && ../.build/vharness.setup -stream astfacts -out ../lean/Generated/LockFacts.lean && rm -f ../.build/vharness.setup)
 (cd lean && lake build)
